@@ -511,26 +511,21 @@ def r6_defaults_not_aliased(chk: Check):
     and the identifiers of other instances)"""
     tree = chk.tree
     n = 0
-    for f in tree.nontest_funcs():
-        if f.module.name != "core.objects":
+    f = tree.func("core.objects", "TypeConfig.__init__")
+    for x in body_walk(f.node):
+        if not (isinstance(x, ast.Attribute) and x.attr == "default" and isinstance(x.ctx, ast.Load)):
             continue
-        for c in body_walk(f.node):
-            if not isinstance(c, ast.Call):
-                continue
-            d = dotted(c.func) or ""
-            if not (d.endswith(".set") or d.endswith("setattr")):
-                continue
-            for a in c.args:
-                for x in walk_local(a):
-                    if isinstance(x, ast.Attribute) and x.attr == "default":
-                        n += 1
-                        par = getattr(x, "_parent", None)
-                        wrapped = isinstance(par, ast.Call) and (dotted(par.func) or "").split(".")[-1] in ("clone", "deepcopy") and x in par.args
-                        chk.require(wrapped, chk.fkey(f, "default stored by " + src(c)[:80]),
-                                    f"`{src(c)}` stores the declared default object itself into the instance; it must be a copy "
-                                    "(clone): editing the nested default of one instance would silently edit the class default, "
-                                    "so the edited value still 'equals the default' and is left out of the identifier", chk.loc(f.module, c))
-    chk.min_instances(n, 1, "stores of a declared default into an instance")
+        par = getattr(x, "_parent", None)
+        if isinstance(par, ast.Compare) or isinstance(par, (ast.If, ast.BoolOp, ast.UnaryOp)):
+            continue  # a test on the default, not a use of its value
+        n += 1
+        wrapped = isinstance(par, ast.Call) and (dotted(par.func) or "").split(".")[-1] in ("clone", "deepcopy") and x in par.args
+        st = enclosing_stmt(x)
+        chk.require(wrapped, chk.fkey(f, "default used by " + norm_stmt(st)[:80]),
+                    f"`{norm_stmt(st)}` puts the declared default object itself into the instance; it must be a copy "
+                    "(clone): editing the nested default of one instance would silently edit the class default, "
+                    "so the edited value still 'equals the default' and is left out of the identifier", chk.loc(f.module, x))
+    chk.min_instances(n, 1, "uses of a declared default while building an instance")
 
 
 RULES = [
